@@ -2,6 +2,7 @@
 import OFV.Core.Json
 import OFV.Model.C05
 import OFV.Model.C05Bksf
+import OFV.Model.C05BksfOk
 import OFV.Spec.C04
 import OFV.Spec.C05
 import OFV.Handlers.Common
@@ -85,6 +86,45 @@ def handle (op : String) (j : Json) : Option (Except String Json) :=
   | "c05.iop_ok" => some do
       .ok (Json.bool (C05.bkInteractionOpOk tol (← nat j "N") (← nat j "n") (← J.gq (← J.field j "constant"))
         (← gqList (← J.field j "one")) (← gqList (← J.field j "two"))))
+  | "c05.bksf_edges" => some do
+      let N ← nat j "N"
+      let T1 := C05.get1 N (← gqList (← J.field j "one"))
+      let T2 := C05.get2 N (← gqList (← J.field j "two"))
+      .ok (J.ofList (fun (e : Nat × Nat) => J.ofNatList [e.1, e.2]) (Bksf.edgeIndices N T1 T2))
+  | "c05.bksf" => some do
+      let N ← nat j "N"
+      let T1 := C05.get1 N (← gqList (← J.field j "one"))
+      let T2 := C05.get2 N (← gqList (← J.field j "two"))
+      match Bksf.bksfOp tol N (← J.gq (← J.field j "constant")) T1 T2 with
+      | none => .ok Json.null
+      | some a => .ok (J.ofOp a)
+  | "c05.bksf_number" => some do
+      let N ← nat j "N"
+      let T1 := C05.get1 N (← gqList (← J.field j "one"))
+      let T2 := C05.get2 N (← gqList (← J.field j "two"))
+      let mode ← match J.fieldD j "mode" Json.null with
+        | Json.null => pure none
+        | mj => do pure (some (← J.nat mj))
+      .ok (J.ofOp (Bksf.numberOp tol N T1 T2 mode))
+  | "c05.bksf_number_ok" => some do
+      let N ← nat j "N"
+      let T1 := C05.get1 N (← gqList (← J.field j "one"))
+      let T2 := C05.get2 N (← gqList (← J.field j "two"))
+      let mode ← match J.fieldD j "mode" Json.null with
+        | Json.null => pure none
+        | mj => do pure (some (← J.nat mj))
+      .ok (Json.bool (Bksf.numberOk tol N T1 T2 mode))
+  | "c05.bksf_one_body" => some do
+      let E ← J.listOf (fun e => do let l ← J.natList e; .ok (l.getD 0 0, l.getD 1 0)) (← J.field j "edges")
+      match Bksf.oneBody tol E (← nat j "p") (← nat j "q") with
+      | none => .ok Json.null
+      | some a => .ok (J.obj [("op", J.ofOp a), ("ok", Json.bool (Bksf.oneBodyOk tol E (← nat j "p") (← nat j "q")))])
+  | "c05.bksf_two_body" => some do
+      let E ← J.listOf (fun e => do let l ← J.natList e; .ok (l.getD 0 0, l.getD 1 0)) (← J.field j "edges")
+      match Bksf.twoBody tol E (← nat j "p") (← nat j "q") (← nat j "r") (← nat j "s") with
+      | none => .ok Json.null
+      | some a => .ok (J.obj [("op", J.ofOp a),
+          ("ok4", Json.bool (Bksf.twoBody4Ok tol E (← nat j "p") (← nat j "q") (← nat j "r") (← nat j "s")))])
   | "c05.bksf_b" => some do
       let E ← J.listOf (fun e => do let l ← J.natList e; .ok (l.getD 0 0, l.getD 1 0)) (← J.field j "edges")
       .ok (J.ofOp (Bksf.edgeB tol E (← nat j "i")))
